@@ -291,7 +291,7 @@ def run(ctx: Ctx) -> None:
     rep.floor("C09.R3", n3, 2)
 
     # ---- R4 -------------------------------------------------------------------------------
-    load = prog.funcs.get("dds._api.load")
+    load = prog.func("dds._api.load")
     if load is None:
         raise AnchorError("dds._api.load not found")
     fetches = [n for n in load.own_nodes() if isinstance(n, ast.Call) and isinstance(n.func, ast.Attribute) and n.func.attr == "fetch_blob"]
@@ -374,7 +374,7 @@ def run(ctx: Ctx) -> None:
                         "without changing the reader's signature)")
     pair_keys_rule(ctx, "C09.R11")
     rep.rule("C09.R12", "dds.load uses its raw argument only to build the normalised path: every lookup (evaluation map, store) is made with the normalised value")
-    ld = prog.funcs.get("dds._api.load")
+    ld = prog.func("dds._api.load")
     if ld is None:
         raise AnchorError("dds._api.load not found")
     raw = [p_ for p_ in ld.params][:1]
@@ -511,11 +511,13 @@ def run(ctx: Ctx) -> None:
     passthrough_rules(ctx, "C09.R9", only=["sync_paths", "fetch_paths"])
 
     # ---- R6 -------------------------------------------------------------------------------
+    from .roles import composer as _role_composer
+    _composer9 = _role_composer(ctx)
     n6 = 0
     for f in [x for x in prog.funcs.values() if x.module is main_mod]:
         fl = flow_of(prog, f)
         for n in f.own_nodes():
-            if isinstance(n, ast.Call) and unparse(n.func).endswith("_build_return_sig"):
+            if isinstance(n, ast.Call) and _composer9 in prog.callees(f, n, ctx._types)[0]:
                 kws = {k.arg: k.value for k in n.keywords}
                 a = kws.get("indirect_deps")
                 if a is None or (isinstance(a, ast.Dict) and not a.keys):
